@@ -1,3 +1,4 @@
+import RavenModel.Model.Mime
 import RavenModel.Model.PartTree
 import RavenModel.Model.Headers
 import RavenModel.Model.Blob
@@ -52,5 +53,64 @@ theorem refetch_identical (subtype : Bytes) (partId : Nat) (_clock₁ _clock₂ 
 -- non-vacuity
 example : PartTree.rebuild (PartTree.flatten (.multi [1] [.leaf [2], .multi [3] [.leaf [4], .leaf [5]], .leaf [6]]))
     = some (.multi [1] [.leaf [2], .multi [3] [.leaf [4], .leaf [5]], .leaf [6]]) := tree_roundtrip _
+
+/-! ## the text of a multipart message, octet by octet (`Model/Mime`)
+
+What `reconstructPartDFS` writes — `--boundary CRLF part CRLF` for every part, then `--boundary--` — against what a reader
+of that text (`mime/multipart.Reader` in `parseMultipart` and `BuildBodyStructure`, or the client) finds: it looks for
+`CRLF "--" boundary` followed by `--` or a line end. -/
+
+/-- C02.6  the parts of a container come back exactly as they were written — any number of parts, any octets in them —
+when each part is *clean* for the delimiter (no `CRLF--boundary` followed by `--` or a line end starts inside it). -/
+theorem parts_as_written (b : Bytes) (ps : List Bytes) (e : Bytes) (hne : ps ≠ [])
+    (hc : Mime.cleanAll (Mime.delim b) ps e = true) : Mime.splitBody b (Mime.joinBody b ps e) = some ps :=
+  Mime.splitBody_joinBody b ps e hne hc
+
+/-- C02.6'  the whole tree comes back: containers nested to any depth, each with its own boundary (one boundary may even be
+a prefix of another, as `…_3` and `…_31` are), any number of parts, any octets — provided `fresh`: every header block is read
+as written and every part is clean for the delimiter of the container it sits in. -/
+theorem tree_as_written (t : Mime.Tree) (f : Nat) (hf : Mime.depth t ≤ f) (hfr : Mime.fresh Mime.readHeader t = true) :
+    Mime.parse Mime.readHeader f (Mime.core t) = some t :=
+  Mime.parse_core Mime.readHeader t f hf hfr
+
+/-- C02.6''  …and so does a whole message (closing delimiter followed by the final line end). -/
+theorem message_as_written (h b : Bytes) (cs : List Mime.Tree) (f : Nat) (hf : Mime.depthList cs ≤ f)
+    (hK : Mime.readHeader (h ++ Mime.joinBody b (Mime.coreList cs) Mime.CRLF) = some (h, b, Mime.joinBody b (Mime.coreList cs) Mime.CRLF))
+    (hcl : Mime.cleanAll (Mime.delim b) (Mime.coreList cs) Mime.CRLF = true) (hfl : Mime.freshList Mime.readHeader cs = true) :
+    Mime.parse Mime.readHeader (f + 1) (Mime.message (.multi h b cs)) = some (.multi h b cs) :=
+  Mime.parse_message Mime.readHeader h b cs f hf hK hcl hfl
+
+/-- a message as the writer produces it: three parts, the second a container whose boundary extends the outer one, the
+first with lines that begin with `--` -/
+def exampleTree : Mime.Tree :=
+  .multi (Mime.containerHeader true (b!"multipart/mixed") (b!"----=_Part_Mixed_3")) (b!"----=_Part_Mixed_3")
+    [ .leaf (b!"Content-Type: text/plain\r\n\r\nhello\r\n--not a delimiter\r\n-- \r\nbye"),
+      .multi (Mime.containerHeader false (b!"multipart/mixed") (b!"----=_Part_Mixed_31")) (b!"----=_Part_Mixed_31")
+        [ .leaf (b!"Content-Type: text/plain\r\n\r\na"), .leaf (b!"Content-Type: text/html\r\n\r\n<p>a</p>") ],
+      .leaf (b!"Content-Type: application/octet-stream\r\nContent-Transfer-Encoding: base64\r\n\r\nAAAA\r\nBBBB") ]
+
+-- non-vacuity: the side condition holds for it, hence it is read back as written
+set_option maxRecDepth 100000 in
+theorem exampleTree_fresh : Mime.fresh Mime.readHeader exampleTree = true := by decide
+example : Mime.parse Mime.readHeader 3 (Mime.core exampleTree) = some exampleTree :=
+  tree_as_written exampleTree 3 (by decide) exampleTree_fresh
+
+/-- C02.6 (full statement)  …without the side condition -/
+def tree_as_written_full : Prop :=
+  ∀ (t : Mime.Tree) (f : Nat), Mime.depth t ≤ f → Mime.parse Mime.readHeader f (Mime.core t) = some t
+
+/-- a part whose text contains the delimiter of its own container -/
+def spoiledTree : Mime.Tree :=
+  .multi (Mime.containerHeader true (b!"multipart/mixed") (b!"----=_Part_Mixed_3")) (b!"----=_Part_Mixed_3")
+    [ .leaf (b!"Content-Type: text/plain\r\n\r\nabove\r\n------=_Part_Mixed_3\r\nContent-Type: text/plain\r\n\r\nbelow") ]
+
+/-- …refuted: the generated boundary is a function of the part's row id, not of the content; a part that contains such a
+line is read back as two parts (the excluded point; probed on the real code by the C02 harness). -/
+theorem tree_as_written_refuted : ¬ tree_as_written_full := by
+  intro h
+  have h1 := h spoiledTree 2 (by decide)
+  set_option maxRecDepth 100000 in
+  have h2 : (Mime.parse Mime.readHeader 2 (Mime.core spoiledTree)).map Mime.width = some 1 := by rw [h1]; rfl
+  revert h2; decide
 
 end Raven.Props.C02
